@@ -240,7 +240,7 @@ theorem peerEv_spec (cfg : Cfg) (s : St) (e : Ev) (h : InvA s) (hb : s.chan = .r
       have hst' : s.stopped = false := hc.1
       have hi0 : InvA { s with chan := .failure, susp := false, live := true } :=
         invA_mk (invc_notready (ch' := .failure) (st' := s.stream) (dz' := s.dz) h (fun x => by cases x)) rfl rfl rfl rfl rfl rfl rfl rfl
-      cases hwk : cfg.wake with
+      cases hwk : (cfg.tok || cfg.wake) with
       | true =>
         simp only [if_true]
         refine peerpost_of_evpost (replicaStep_spec cfg _ f hi0 hst') hst' rfl rfl rfl id plain_rfl rfl (hnb hst') ?_ rfl
@@ -256,6 +256,15 @@ theorem peerEv_spec (cfg : Cfg) (s : St) (e : Ev) (h : InvA s) (hb : s.chan = .r
     split
     · rename_i hc
       have hst' : s.stopped = false := hc.1
+      have hi0 : InvA { s with chan := .failure, susp := false, live := true } :=
+        invA_mk (invc_notready (ch' := .failure) (st' := s.stream) (dz' := s.dz) h (fun x => by cases x)) rfl rfl rfl rfl rfl rfl rfl rfl
+      cases htk : cfg.tok with
+      | true =>
+        simp only [if_true]
+        refine peerpost_of_evpost (replicaStep_spec cfg _ f hi0 hst') hst' rfl rfl rfl id plain_rfl rfl (hnb hst') ?_ rfl
+        intro x y; subst y; simp [Ev.putFault] at x
+      | false =>
+      simp only [Bool.false_eq_true, if_false]
       exact peerpost_same (invA_mk (invc_notready (ch' := .failure) (st' := s.stream) (dz' := s.dz) h (fun x => by cases x)) rfl rfl rfl rfl rfl rfl rfl rfl)
         (fun x => by cases x) (fun x => by rw [hst'] at x; cases x) hu
         (Or.inr (Or.inr (Or.inr (Or.inr rfl)))) rfl (Or.inl rfl) (Or.inl rfl) rfl rfl plain_rfl
